@@ -140,7 +140,7 @@ func ruleC08b(c *Ctx, rule string) {
 	hf := c.need(rule, "(*z/planner.havingFilter).Iterate")
 	if hf != nil {
 		ok := false
-		for _, a := range hf.AnonFuncs {
+		for _, a := range withHelpers(c.P, hf) {
 			for _, in := range instrs(a) {
 				if b, isB := in.(*ssa.BinOp); isB && (b.Op == token.NEQ || b.Op == token.EQL) {
 					if (isFieldLoadOrAddrName(b.X, "Name") || isFieldValue(b.X, "Name")) && isConstStr(b.Y, "_having") {
@@ -234,7 +234,7 @@ func init() {
 		Explanation: "Decides operator order and pairing in the plan builders: WHERE filter below GROUP BY on every path with a WHERE; HAVING applied between Flatten and ORDER/LIMIT in both planners that group on this node, keeping exactly rows whose helper value is 1 and hiding the helper column; IN-subqueries run before the predicate and nil results drop the row.",
 		NotDecided:  []string{"predicate evaluation inside goexpr", "HAVING arithmetic", "equality with a differential run", "FROM (subquery) field mapping beyond Unflatten's wiring"},
 		Assumptions: []string{"goexpr.Expr.Eval returns a bool or nil for boolean predicates"},
-		Rules:       []func(*Ctx){func(c *Ctx) { ruleC08a(c, "C08.a") }, func(c *Ctx) { ruleC08b(c, "C08.b") }, func(c *Ctx) { ruleC08c(c, "C08.c") }, func(c *Ctx) { ruleC08d(c, "C08.d") }},
+		Rules:       []func(*Ctx){func(c *Ctx) { ruleC08a(c, "C08.a") }, func(c *Ctx) { ruleC08b(c, "C08.b") }, func(c *Ctx) { ruleC08c(c, "C08.c") }, func(c *Ctx) { ruleC08d(c, "C08.d") }, func(c *Ctx) { ruleLoopCapture(c, "C08.e", "z/planner") }, func(c *Ctx) { ruleC08f(c, "C08.f") }},
 	})
 }
 
@@ -305,6 +305,16 @@ func ruleC08d(c *Ctx, rule string) {
 				rest = append(rest, call)
 			}
 		}
+		if first == nil {
+			// result := core.Fields{core.PointsField}: the literal's element store
+			for _, in := range instrs(fn) {
+				if st, ok := in.(*ssa.Store); ok && globalName(st.Val) == "z/core.PointsField" {
+					if _, isIA := st.Addr.(*ssa.IndexAddr); isIA {
+						first = st
+					}
+				}
+			}
+		}
 		ok := first != nil && len(rest) > 0
 		for _, r := range rest {
 			if first == nil || !instrDominates(first, r) {
@@ -336,4 +346,122 @@ func ruleC08d(c *Ctx, rule string) {
 		}
 		c.check(rule, "a selected field is always registered under its name", fn.Pos(), ok, "every path that appends the field also sets fieldsMap[name]", "a selected alias can be appended without (re)registering it in fieldsMap: HAVING that refers to an alias shadowing a table column is evaluated on the raw column")
 	}
+}
+
+// ruleLoopCapture: the module is built with pre-1.22 loop-variable semantics
+// (go.mod: go 1.12): a goroutine started inside a loop that captures a variable
+// declared outside the loop body but assigned in the loop sees whatever value the
+// variable has when the goroutine runs, not the value of its iteration.
+func ruleLoopCapture(c *Ctx, rule string, pkgs ...string) {
+	c.describe(rule, "flow: goroutines started inside a loop (one per IN-subquery in planSubQueries, one per partition in queryCluster, …) bind their own iteration's values — no closure run with `go` captures a variable that lives across iterations and is assigned inside the loop (per-iteration copies or arguments are required under the module's go 1.12 loop-variable semantics)")
+	n := 0
+	for _, fn := range c.P.ModFns {
+		pk := pkgOf(fn)
+		in := false
+		for _, p := range pkgs {
+			if pk == p {
+				in = true
+			}
+		}
+		if !in {
+			continue
+		}
+		for _, ins := range instrs(fn) {
+			g, ok := ins.(*ssa.Go)
+			if !ok {
+				continue
+			}
+			l := innermostLoop(fn, g.Block())
+			if l == nil {
+				continue
+			}
+			mc, ok := g.Call.Value.(*ssa.MakeClosure)
+			if !ok {
+				continue
+			}
+			n++
+			c.touch(fn)
+			bad := ""
+			for _, b := range mc.Bindings {
+				al, isAl := b.(*ssa.Alloc)
+				if !isAl || l.body[al.Block()] {
+					continue // a fresh cell per iteration
+				}
+				for _, st := range cellStores(fn, al) {
+					if st.Parent() == fn && l.body[st.Block()] {
+						bad = al.Comment
+					}
+				}
+			}
+			top := fn
+			for top.Parent() != nil {
+				top = top.Parent()
+			}
+			k := perTopCount(c, rule, top)
+			c.check(rule, stableName(top)+": goroutine #"+itoa(k)+" started in a loop binds per-iteration values", g.Pos(), bad == "", "captures only variables declared inside the loop body (or none assigned in the loop)", "the goroutine captures '"+bad+"', which is declared outside the loop body and assigned on every iteration: all goroutines can observe the last iteration's value (only the last IN-subquery / partition is evaluated, the others get its result or none)")
+		}
+	}
+	c.floor(rule, "goroutines started in loops", n, 1)
+}
+
+var perTopCounts = map[string]int{}
+
+func perTopCount(c *Ctx, rule string, top *ssa.Function) int {
+	k := c.Prop + "|" + rule + "|" + top.String()
+	perTopCounts[k]++
+	return perTopCounts[k]
+}
+
+// ruleC08f: the consumer of HAVING (addHaving) reads and strips the LAST value
+// of a row; the group operator must therefore emit _having as its last field,
+// also when CROSSTAB adds per-value and total columns.
+func ruleC08f(c *Ctx, rule string) {
+	c.describe(rule, "dom: in (*group).Iterate's CROSSTAB field construction the saved _having field is appended after every other output field — no append to the output field list is reachable from the append of the _having field")
+	gi := c.need(rule, "(*z/core.group).Iterate")
+	if gi == nil {
+		return
+	}
+	isFieldAppend := func(call ssa.CallInstruction) bool {
+		return isCall(call, "builtin append") && typeStr(call.Common().Args[0].Type()) == "[]z/core.Field" || isCall(call, "builtin append") && typeStr(call.Common().Args[0].Type()) == "z/core.Fields"
+	}
+	var having []ssa.CallInstruction
+	var all []ssa.CallInstruction
+	for _, call := range calls(gi) {
+		if !isFieldAppend(call) {
+			continue
+		}
+		all = append(all, call)
+		// guarded by havingField.Name != ""
+		for _, g := range guardsOf(call.Block()) {
+			b, ok := g.v.(*ssa.BinOp)
+			if !ok || (b.Op != token.NEQ && b.Op != token.EQL) {
+				continue
+			}
+			ne := b.Op == token.NEQ
+			if !g.pos {
+				ne = !ne
+			}
+			s1, ok1 := constString(b.X)
+			s2, ok2 := constString(b.Y)
+			empty := (ok1 && s1 == "") || (ok2 && s2 == "")
+			if ne && empty && (isFieldValue(b.X, "Name") || isFieldValue(b.Y, "Name") || isFieldLoadOrAddrName(b.X, "Name") || isFieldLoadOrAddrName(b.Y, "Name")) {
+				having = append(having, call)
+			}
+		}
+	}
+	if len(having) != 1 {
+		c.undecided(rule, "group.Iterate: _having is the last crosstab output field", gi.Pos(), "expected one append of the saved _having field (guarded by havingField.Name != \"\"), found "+itoa(len(having)))
+		return
+	}
+	h := having[0]
+	later := ""
+	for _, call := range all {
+		if call == h {
+			continue
+		}
+		if instrReaches(h, call.(ssa.Instruction), nil) {
+			later = c.P.Pos(call.Pos())
+		}
+	}
+	c.check(rule, "group.Iterate: _having is the last crosstab output field", h.Pos(), later == "", "no output field is appended after _having", "an output field is appended after the _having field (at "+later+"): addHaving reads the include flag from the last value and strips only that one, so with CROSSTABT rows are kept or dropped by a total column and the helper value stays in the row")
 }
